@@ -23,7 +23,10 @@ UB, UF, UN = "UpdateBlockWriteError", "UpdateFFBlockWriteError", "UpdateFFNonTop
 KINDS = ["dup-writer-same", "dup-writer-overlap-slice", "dup-writer-parent", "block-vs-net", "block-vs-net-overlap",
          "second-connect-const", "second-connect-wire", "no-writer-fresh", "loop-3", "write-own-inport", "write-child-wire",
          "read-child-wire", "write-child-outport", "op-eq-in-update", "op-ilshift-in-update", "op-imatmul-in-ff",
-         "op-ilshift-slice-in-ff", "ff-and-comb-same-signal", "self-connect"]
+         "op-ilshift-slice-in-ff", "ff-and-comb-same-signal", "self-connect",
+         # port-direction / hierarchy rules broken by CONNECTIONS (the target is otherwise undriven: the only defect present)
+         "const-to-child-wire", "const-to-child-outport", "const-to-grandchild-inport", "wire-to-child-outport", "read-grandchild-outport",
+         "own-inport-from-own-wire"]
 
 
 def plan(tier, seed):
@@ -33,7 +36,7 @@ def plan(tier, seed):
 
 
 def thresholds(tier):
-  t = {"mutants_judged": 800, "legal_elaborations": 400, "kinds_with_5": len(KINDS) - 1, "elaborations": 3000}
+  t = {"mutants_judged": 800, "legal_elaborations": 400, "kinds_with_5": len(KINDS) - 2, "elaborations": 3000}
   if tier == "thorough":
     t.update({"mutants_judged": 15000, "legal_elaborations": 8000, "elaborations": 60000})
   return t
@@ -193,6 +196,45 @@ def inject(rng, design, kind):
           return d, {ST}, dict(info, signal=G.ref_text(r))
         newblk(cls, "zz_wr", "comb", [["=", r, ["c", 0, None]]])
         return d, {ST, MW}, dict(info, signal=G.ref_text(r))
+    if kind in ("const-to-child-wire", "const-to-child-outport", "wire-to-child-outport") and cls["children"]:
+      iname, ccn = rng.choice(cls["children"])
+      cc = d["classes"][ccn]
+      w = rng.choice([1, 4, 8])
+      nm = "zz_cw" if kind == "const-to-child-wire" else "zz_co"
+      cc["signals"].append({"name": nm, "kind": "Wire" if kind == "const-to-child-wire" else "OutPort", "type": w, "list": None})   # undriven, unread: legal
+      tgt = {"path": f"{iname}.{nm}", "steps": [], "lo": 0, "w": w}
+      if kind == "wire-to-child-outport":
+        cls["signals"].append({"name": "zz_pw", "kind": "Wire", "type": w, "list": None})
+        pw = {"path": "zz_pw", "steps": [], "lo": 0, "w": w}
+        newblk(cls, "zz_pwb", "comb", [["=", pw, ["c", 1, None]]])
+        cls["connects"].insert(rng.randrange(len(cls["connects"]) + 1), [tgt, pw])
+      else:
+        cls["connects"].insert(rng.randrange(len(cls["connects"]) + 1), [tgt, {"const": rng.getrandbits(w)}])
+      return d, {ST}, dict(info, target=G.ref_text(tgt))
+    if kind in ("const-to-grandchild-inport", "read-grandchild-outport") and cls["children"]:
+      cands = [(iname, ccn, i2, c2) for iname, ccn in cls["children"] for i2, c2 in d["classes"][ccn]["children"]]
+      if cands:
+        iname, ccn, i2, c2 = rng.choice(cands)
+        gc = d["classes"][c2]
+        w = rng.choice([1, 4, 8])
+        if kind == "const-to-grandchild-inport":
+          gc["signals"].append({"name": "zz_gi", "kind": "InPort", "type": w, "list": None})         # unconnected input: legal
+          tgt = {"path": f"{iname}.{i2}.zz_gi", "steps": [], "lo": 0, "w": w}
+          cls["connects"].insert(rng.randrange(len(cls["connects"]) + 1), [tgt, {"const": rng.getrandbits(w)}])
+          return d, {ST}, dict(info, target=G.ref_text(tgt))
+        gc["signals"].append({"name": "zz_go", "kind": "OutPort", "type": w, "list": None})
+        newblk(gc, "zz_gob", "comb", [["=", {"path": "zz_go", "steps": [], "lo": 0, "w": w}, ["c", 1, None]]])
+        cls["signals"].append({"name": "zz_rg", "kind": "Wire", "type": w, "list": None})
+        cls["connects"].insert(rng.randrange(len(cls["connects"]) + 1),
+                               [{"path": "zz_rg", "steps": [], "lo": 0, "w": w}, {"path": f"{iname}.{i2}.zz_go", "steps": [], "lo": 0, "w": w}])
+        return d, {ST}, dict(info, source=f"s.{iname}.{i2}.zz_go")
+    if kind == "own-inport-from-own-wire" and depth_of[cls["name"]] > 0:
+      w = rng.choice([1, 4, 8])
+      cls["signals"] += [{"name": "zz_oi", "kind": "InPort", "type": w, "list": None}, {"name": "zz_ow", "kind": "Wire", "type": w, "list": None}]
+      ow = {"path": "zz_ow", "steps": [], "lo": 0, "w": w}
+      newblk(cls, "zz_owb", "comb", [["=", ow, ["c", 1, None]]])
+      cls["connects"].insert(rng.randrange(len(cls["connects"]) + 1), [{"path": "zz_oi", "steps": [], "lo": 0, "w": w}, ow])
+      return d, {ST}, dict(info, port="zz_oi")
     if kind in ("op-eq-in-update", "op-ilshift-in-update"):
       blks = [b for b in cls["blocks"] if b["kind"] == "comb" and b["stmts"]]
       if blks:
@@ -250,10 +292,24 @@ def run_shard(sh):
       cls = base["classes"][rng.choice(base["order"])]
       w = rng.choice([4, 8, 16]); a = rng.randrange(1, w - 1); b = rng.randrange(a + 1, w)
       cls["signals"].append({"name": "zz_ov", "kind": "Wire", "type": w, "list": None})
-      cls["blocks"].append({"name": "zz_ovb", "kind": "comb", "stmts": [
-        ["=", {"path": "zz_ov", "steps": [["s", 0, b]], "lo": 0, "w": b}, ["c", 0, None]],
-        ["=", {"path": "zz_ov", "steps": [["s", a, w]], "lo": a, "w": w - a}, ["c", 1, None]]]})
-      sh.count("legal_same_block_overlap")
+      whole = {"path": "zz_ov", "steps": [], "lo": 0, "w": w}
+      variant = rng.randrange(3)
+      if variant == 0:
+        stmts = [["=", {"path": "zz_ov", "steps": [["s", 0, b]], "lo": 0, "w": b}, ["c", 0, None]],
+                 ["=", {"path": "zz_ov", "steps": [["s", a, w]], "lo": a, "w": w - a}, ["c", 1, None]]]
+      else:
+        # the whole signal (a default) and one of its slices written by the same block, in either order
+        stmts = [["=", whole, ["c", 0, None]], ["=", {"path": "zz_ov", "steps": [["s", a, b]], "lo": a, "w": b - a}, ["c", 1, None]]]
+        if variant == 2: stmts.reverse()
+      cls["blocks"].append({"name": "zz_ovb", "kind": "comb", "stmts": stmts})
+      if rng.random() < 0.6:
+        # a net reads some slice of it (inside, outside or across the slice written separately)
+        c = rng.randrange(w - 1); e = rng.randrange(c + 1, w + 1)
+        cls["signals"].append({"name": "zz_ovr", "kind": "Wire", "type": e - c, "list": None})
+        cls["connects"].insert(rng.randrange(len(cls["connects"]) + 1),
+                               [{"path": "zz_ovr", "steps": [], "lo": 0, "w": e - c}, {"path": "zz_ov", "steps": [["s", c, e]], "lo": c, "w": e - c}])
+        sh.count("legal_same_block_overlap_read_by_net")
+      sh.count("legal_same_block_overlap"); sh.count("legal_same_block_overlap_variant%d" % variant)
     # legal base: must elaborate in every order
     for perm in range(sh.params["orders"]):
       oc, src, msg = outcome(base, rng, perm)
